@@ -928,6 +928,79 @@ LAWS.append(
 )
 
 
+# ------------------------------------------------------------------------------------------- a diagram and its copies
+@st.composite
+def dcopy_case(draw, tier="quick"):
+    return {"v": [draw(C.ints(5)) for _ in range(30)], "steps": [draw(st.sampled_from(["orig+matrix", "copy+vector", "copy+matrix", "orig+vector", "copy+edge", "orig+edge"])) for _ in range(draw(st.integers(2, 5)))],
+            "how": draw(st.sampled_from(["copy()", "copy.copy"]))}
+
+
+def run_dcopy(c):
+    """TensorDiagram.copy() / copy.copy(diagram): afterwards the diagram and the copy are two diagrams - whatever nodes and edges are added to one of
+    them, in whatever order, the other one denotes what a diagram built afresh by its own steps denotes"""
+    import copy as _copy
+
+    from geometer.base import Tensor, TensorDiagram
+    from geometer.exceptions import TensorComputationError
+
+    from ..runner import Checker
+
+    v = [int(x) for x in c["v"]]
+    A = Tensor(np.array(v[0:9]).reshape(3, 3), covariant=[0])
+    x = Tensor(np.array(v[9:12]), covariant=False)
+    new = {"matrix": lambda k: Tensor(np.array(v[12 + k:21 + k]).reshape(3, 3), covariant=[0]), "vector": lambda k: Tensor(np.array(v[21 + k:24 + k]), covariant=bool(k % 2))}
+
+    def start():
+        return TensorDiagram((A, x))
+
+    def apply(diagram, ops_):
+        nodes = [A, x]
+        for k, (kind, obj) in enumerate(ops_):
+            if kind == "edge":
+                try:
+                    diagram.add_edge(obj[0], obj[1])
+                except TensorComputationError:
+                    pass
+            else:
+                diagram.add_node(obj)
+        return diagram
+
+    d = start()
+    d2 = d.copy() if c["how"] == "copy()" else _copy.copy(d)
+    hist = {"orig": [], "copy": []}
+    for k, step in enumerate(c["steps"]):
+        who, what = step.split("+")
+        if what == "edge":
+            y = new["vector"](2 * k)  # covariant vector joined to the matrix
+            op = ("edge", (y, A))
+        else:
+            op = (what, new[what](k))
+        hist[who].append(op)
+        try:
+            apply(d if who == "orig" else d2, [op])
+        except Exception as e:  # noqa: BLE001
+            return [exc_fail(e, "diagram-copy:" + step)]
+    ck = Checker()
+    for who, dia in (("orig", d), ("copy", d2)):
+        got, f = call(f"diagram-copy:{who}:calculate", dia.calculate)
+        want, g = call(f"diagram-copy:{who}:afresh", lambda: apply(start(), hist[who]).calculate())
+        if g:
+            continue
+        if f:
+            ck.add(f)
+            continue
+        ck.check(got.array.shape == want.array.shape and np.array_equal(got.array, want.array) and got.tensor_shape == want.tensor_shape, f"diagram-copy:{who}:differs-from-a-diagram-built-afresh",
+                 (c["steps"], got.array.shape, want.array.shape))
+    return ck.result()
+
+
+LAWS.append(
+    Law("diagram_and_copy_are_independent", lambda tier: dcopy_case(tier), run_dcopy, lambda c: len({s.split("+")[0] for s in c["steps"]}) == 2, lambda c: [c["how"]] + (["both-extended"] if len({s.split("+")[0] for s in c["steps"]}) == 2 else []),
+        {"quick": 600, "thorough": 8000}, "TensorDiagram.copy() / copy.copy: nodes and edges added to the diagram and to its copy in any order; each still denotes what a diagram built afresh by its own steps denotes", shard=200,
+        mandatory=("both-extended",))
+)
+
+
 # ------------------------------------------------------------------------------------------- the same query in a fresh process
 def fresh_drive(tier, seed, n_examples):
     """A long history of registry queries in this process (every operation several times, other parameter vectors in between);
